@@ -38,6 +38,7 @@ func runC14(e *Env) {
 	if cc.Async {
 		cc.Until = true
 	}
+	cc = e.drawBuffered(cc) // sometimes behind the write-buffering transport wrapper: order across buffered and direct writes
 	n := 1 + e.P(4)
 	var msgs []*c14Msg
 	for i := 0; i < n; i++ {
